@@ -655,7 +655,7 @@ func (pk *Pkg) injectAndRecheck(w *World) error {
 		}
 		// result variables
 		var pre []ast.Stmt
-		if label == "" && fd.Type.Results != nil {
+		if fd.Type.Results != nil {
 			n := 0
 			for _, f := range fd.Type.Results.List {
 				if len(f.Names) == 0 {
